@@ -61,10 +61,10 @@ META = {
              'event of every step; at the end the clock is moved past every due time and the queues are drained: every '
              'event consumed exactly once.  Non-trivial = distinct (chart, step) where an internal/external race, an '
              'equal-due tie, a due-exactly-now boundary or a not-yet-due internal head occurred.',
-        assumptions=COMMON_ASSUME + ['negative delays excluded (W10)', '1 case in 12 is a threaded scenario (queue() from two threads while a third calls execute_once) under the controlled scheduler of vf/sched.py'],
+        assumptions=COMMON_ASSUME + ['negative delays are part of the workload (the due time is t+d also for d<0, as in the repository\'s own test_delay)', '1 case in 12 is a threaded scenario (queue() from two threads while a third calls execute_once) under the controlled scheduler of vf/sched.py'],
         required=['threaded_schedules', 'threaded_events_exactly_once', 'steps_monitored', 'events_consumed', 'c05_drained_runs', 'c05_internal_before_due_external',
                   'c05_equal_due_tie', 'c05_due_exactly_now', 'c05_external_while_internal_not_due'],
-        modes=[('queue', 8, dict(p_send=0.5, p_state_send=0.15, p_notify=0.15)), ('orth', 2, dict(p_send=0.5, p_orth=0.45))],
+        modes=[('queue', 8, dict(p_send=0.5, p_state_send=0.15, p_notify=0.15, delays=(0, 0, 0, 0.125, 1, 1, 2, 5, -1, -0.125))), ('orth', 2, dict(p_send=0.5, p_orth=0.45))],
     ),
     'C06': dict(
         rule='history-heavy charts; the model records what was active under each history parent at its last exit '
